@@ -133,10 +133,13 @@ class Built(object):
         self.model, self.els = model, els
 
 
-def build(desc, start, stop, dt, leaves, model_cls=None):
+def build(desc, start, stop, dt, leaves, model_cls=None, model_spec=None):
+    """model_spec: (start, stop, dt) the Model object is created with when a scenario later overrides them with
+    (start, stop, dt); durations and absolute times in the description always refer to (start, dt)"""
     from BPTK_Py import Model
     from BPTK_Py import sd_functions as sd
-    m = (model_cls or Model)(starttime=float(start), stoptime=float(stop), dt=float(dt), name=desc.get("name", "m"))
+    ms = model_spec or (start, stop, dt)
+    m = (model_cls or Model)(starttime=float(ms[0]), stoptime=float(ms[1]), dt=float(ms[2]), name=desc.get("name", "m"))
     els = {}
     # declare everything first (equations may refer to later elements)
     for kind, name, spec in desc["elements"]:
